@@ -77,7 +77,8 @@ def run(ctx):
         check('lwe_keygen n=%d' % n, 0, [n], sd + n, rng.randrange(50), 0, 0)
         for a1 in (alphas if n in (7, 630) or thorough else rng.sample(alphas, 2)):
             msg = rng.choice([0, 2**29, -2**29, rng.randrange(-2**31, 2**31)])
-            r = check('lweSymEncrypt n=%d alpha=2^-40*%d' % (n, a1), 1, [n] + key + [msg], sd + n + a1 % 97, rng.randrange(50), a1, 0)
+            prange = rng.choice([0, 1, 2, 3, 4])        # the noise range announced by the parameter object is independent of the alpha requested (enc_drv: mk_lwe_params)
+            r = check('lweSymEncrypt n=%d alpha=2^-40*%d parameter-range=%d' % (n, a1, prange), 1, [n] + key + [msg], sd + n + a1 % 97, rng.randrange(50), a1, prange)
             if r and len(r['res']) == n + 1:
                 # independent: phase - message must be the truncated draw
                 ph = vlib.w32(r['res'][n] - sum(x for x, y in zip(r['res'][:n], key) if y) - msg)
@@ -130,7 +131,7 @@ def run(ctx):
         for rep in range(2):
             msg = rng.choice([0, 2**29, -2**29, rng.randrange(-2**31, 2**31)])
             num = rng.randrange(-2**40, 2**40); ke = rng.choice([45, 50, 60])
-            check('lweSymEncryptWithExternalNoise n=%d' % n, 14, [n] + key + [msg, num, ke], sd + 3 * n + rep, rng.randrange(50), 32768, 0)
+            check('lweSymEncryptWithExternalNoise n=%d' % n, 14, [n] + key + [msg, num, ke], sd + 3 * n + rep, rng.randrange(50), 32768, rng.choice([0, 1, 2, 3, 4]))
     # --- whole secret key sets (LWE key, ring key, key-switching key, bootstrapping key in the order of the C++)
     for (n, k, l, B, t, bb) in ([(4, 1, 2, 10, 2, 2), (3, 2, 3, 7, 1, 3)] if not thorough else [(4, 1, 2, 10, 2, 2), (3, 2, 3, 7, 1, 3), (16, 1, 3, 7, 8, 2), (630, 1, 3, 7, 8, 2), (500, 1, 2, 10, 8, 2)]):
         nks = k * N * t * (1 << bb) * (n + 1)
